@@ -30,8 +30,12 @@ Proof. exact entry_index_mirror. Qed.
 
 (* FULL STATEMENT for batches (what the property demands, since the server only establishes
    uniqueness of the entries before and after a whole batch): REFUTED by the faithful model —
-   two entries that exchange names in one `modify` / `incremental_apply` lose a name
-   (confirmed on the real backend, see props/C03.json). *)
+   an entry that, inside one `modify` / `incremental_apply` batch, takes a name another entry of
+   the batch gives up loses that name when it is indexed first (name swap, rename chain).
+   Confirmed on the real backend, and on a real replicating pair of QueryServers: chained
+   renames on the supplier arrive in one incremental run and leave a live entry that
+   name_to_uuid cannot resolve on the consumer (attrunique rejects the same shapes through
+   modify / batch_modify, so replication is the reachable path). See props/C03.json. *)
 Definition C03_batch_full_statement : Prop := batch_full_statement.
 Theorem C03_batch_refuted : ~ C03_batch_full_statement.
 Proof. exact batch_refuted. Qed.
